@@ -2,5 +2,8 @@ SPECIFICATION Spec
 CONSTANTS
   MaxDepth = 4
   MaxResets = 3
-INVARIANTS GridDelay ConvDelay TapRange ResetInit RingOK IdxLaw
+  BigDepths = {36, 50, 64}
+  MaxZ = 9
+  GridDepths = {33, 35, 36, 37, 48, 50, 64, 96, 128}
+INVARIANTS GridDelay ConvDelay TapRange ResetInit RingOK IdxLaw KernelForm SilentOut
 CHECK_DEADLOCK FALSE
